@@ -9,4 +9,8 @@
 #include <complex.h>
 double wb_exp(double x);
 #define exp wb_exp
+/* the function itself is renamed: the library's callers reach it through the tap
+   _vnacal_new_solve_calc_pvalue of selfcal_harness.c, which prints the inputs of the
+   degrees-of-freedom count from the solve state and then calls it unchanged */
+#define _vnacal_new_solve_calc_pvalue wb_real_calc_pvalue
 #include "vnacal_new_solve_pvalue.c"
